@@ -429,7 +429,11 @@ def m3(ctx):
                                 for st_ in sts:
                                     a_ = st_.d['args']
                                     useqs = {u.seq for u in ucs}
-                                    if len(a_) >= 2 and a_[0].k in ('free', 'param') and ucs and any(
+                                    if not ucs:
+                                        # the computation may be handed in as a callable (functools.partial): any
+                                        # call made by the thread body whose result is what gets stored
+                                        useqs = {x.seq for x in tp.trace if x.kind in ('UCALL', 'CALL') and x.seq < st_.seq}
+                                    if len(a_) >= 2 and a_[0].k in ('free', 'param') and useqs and any(
                                             y.k in ('ret', 'ucall') and y.a[0] in useqs for y in values_in(a_[1])):
                                         stores = True
                             if not stores:
@@ -477,6 +481,19 @@ def m4(ctx):
             for g in fn.nested.values():
                 yield g
                 yield from nested_nodes(g)
+        if q in ('core.Cache.memoize', 'djangocache.DjangoCache.memoize', 'recipes.memoize_stampede'):
+            dec = f.nested.get('decorator')
+            uses = False
+            if dec is not None:
+                for p in ctx.paths(dec, 'plain'):
+                    for e in p.trace:
+                        if e.kind == 'CALL' and any(t.qual == 'core.full_name' for t in e.d['targets']) and e.d['args'] \
+                                and e.d['args'][0].k == 'param' and e.d['args'][0].a[0] == dec.posparams[0]:
+                            uses = True
+            obs.append(Ob('M4', q + '/automatic-name-is-full-name', uses,
+                          'the automatic key prefix of %s is not full_name(func) (module + qualified name): same-named '
+                          'methods of two classes, or closures made in different functions, would share entries' % q,
+                          f.loc()))
         obs.append(Ob('M4', q, not bad,
                       'a closure created by %s rebinds a variable of the enclosing call (nonlocal %s): the name/base '
                       'derived for the first decorated function leaks into the next function decorated with the same '
